@@ -889,6 +889,9 @@ func propC08(r *Run) {
 	}
 	r.notes = append(r.notes, fmt.Sprintf("exhaustive: Apply of every modifier with offsets in [-4,4] on all pairs over 3..7; resize of %d flat regions (1..3 segments, lengths 1..%d, every orientation pattern) by every modifier with offsets in [-total-3,total+3] (two-offset forms thinned to 1/3 for 3 segments in the quick tier); all modifier strings of length <= %d over \"^$.+-01\"", nReg, maxLen, map[bool]int{true: 6, false: 5}[thorough]))
 
+	// (2b) the same laws near the origin, where extensions run below coordinate 0 (props_c08_low.go)
+	c08NearOrigin(r)
+
 	// (3) random regions: 1..5 segments of lengths 1..5, either strand / mixed, flat and nested one level
 	nRandom := 2500
 	if thorough {
